@@ -46,6 +46,20 @@ func positions(n, dense int) []int {
 // forEachInput enumerates the hostile neighbourhood of an entry's corpus. The
 // sequence is a function of (entry, tier, seed) only.
 func forEachInput(e Entry, thorough bool, rng *rand.Rand, fn func(class string, pos int, in []byte)) {
+	if e.Large {
+		// large crafted packets: the seeds themselves, a sparse set of truncations and single-byte
+		// corruptions (each call is expensive by construction)
+		for si, s := range e.Seeds {
+			fn("seed", si, s)
+			for _, p := range positions(len(s), 24) {
+				fn("trunc", p, s[:p])
+				m := append([]byte{}, s...)
+				m[p] ^= 0xFF
+				fn("byte", p, m)
+			}
+		}
+		return
+	}
 	dense := 160
 	havoc := 400
 	if thorough {
